@@ -349,7 +349,13 @@ func checkC06(c mutCase) error {
 		}
 	}
 	// hash envelope verification
-	for _, ver := range tl.verifiers[:2] {
+	hvers := tl.verifiers[:2]
+	if c.HKey != nil {
+		if hv, err := libVerifier(*c.HKey, false); err == nil {
+			hvers = append([]cose.Verifier{hv}, hvers...)
+		}
+	}
+	for _, ver := range hvers {
 		var m *cose.Sign1Message
 		var herr error
 		if err := guard("VerifyHashEnvelope", c.Wire, func() { m, herr = cose.VerifyHashEnvelope(ver, append([]byte{}, c.Wire...)) }); err != nil {
@@ -415,7 +421,7 @@ func genC06Case(t *rapid.T) mutCase {
 		if n := rapid.SampledFrom([]int{0, 1, 1, 2}).Draw(t, "nfaults"); n > 0 {
 			wire, muts = gen.MutateWire(t, seed, n, gen.MutOpts{})
 		}
-		return mutCase{SeedKind: refcose.KSign1, Seed: seed, Wire: wire, Muts: append(muts, gen.Mutation{Op: "hash-envelope-seed"})}
+		return mutCase{SeedKind: refcose.KSign1, Seed: seed, Wire: wire, Muts: append(muts, gen.Mutation{Op: "hash-envelope-seed"}), HKey: &hc.Key}
 	case 4:
 		// deep nesting / huge declared lengths
 		d := rapid.IntRange(1, 300).Draw(t, "depth")
